@@ -909,3 +909,16 @@ Check shutdown_refuses :
     down = has_shutdown h /\
     (forall e0 acc0 h', l_run fixed cap e0 true acc0 (map (fun t => LS (Submit t)) h') = (e0, true, acc0)).
 Print Assumptions shutdown_refuses.
+
+(* every history of yield_now / force_yield / reset on one FiberYield: the u8 budget stays within [0, initial_budget] (the decrement is
+   guarded, the exhausted budget is refilled by force_yield) and total_yields is the number of yield operations since the last reset *)
+Theorem yield_budget_history :
+  forall (init : N) (ops : list Z) (y : fy), fy_budget y <= init ->
+    fy_budget (fold_left (fy_apply init) ops y) <= init /\
+    fy_total (fold_left (fy_apply init) ops y) = yields_since (fy_total y) ops.
+Proof. exact yield_budget_history_proof. Qed.
+Check yield_budget_history :
+  forall (init : N) (ops : list Z) (y : fy), fy_budget y <= init ->
+    fy_budget (fold_left (fy_apply init) ops y) <= init /\
+    fy_total (fold_left (fy_apply init) ops y) = yields_since (fy_total y) ops.
+Print Assumptions yield_budget_history.
